@@ -89,7 +89,7 @@ def eval3(c, val: Dict[str, Any]) -> frozenset:
         return ONLY_T
     if k == "false":
         return ONLY_F
-    if k == "opaque":
+    if k.startswith("opaque"):
         return BOTH
     if k == "truthy":
         f = governed_read(c[1])
